@@ -171,6 +171,8 @@ def plan(tier, seed):
     nmax = 5 if tier == 'quick' else 7
     for n in range(0, nmax + 1):
         tasks.append(('alias_tokens', {'n': n, 'tpl': None}))
+        if n and n < nmax:
+            tasks.append(('alias_tokens', {'n': n, 'tpl': 'cmd_prefix'}))
     for tpl in ('nbsp_mid', 'nbsp_lead', 'lead_space'):
         tasks.append(('alias_tokens', {'n': 3, 'tpl': tpl}))
     # A3
@@ -231,6 +233,7 @@ def git_reference(P, toks):
                 consumed.append(t)
                 handled = True
             else:
+                P.state['meta_stop'] = i
                 return consumed, ('query', t)
         if not handled:
             for name, k in kinds.items():
@@ -242,6 +245,7 @@ def git_reference(P, toks):
                     if k == 'novalue':
                         consumed.append(t)
                     elif k == 'query':
+                        P.state['meta_stop'] = i
                         return consumed, ('query', t)
                     elif k == 'next':
                         if i + 1 >= n:
@@ -259,6 +263,7 @@ def git_reference(P, toks):
                     continue
                 if s_prefix(P, t, name + '='):
                     if k == 'query':
+                        P.state['meta_stop'] = i
                         return consumed, ('query', t)
                     consumed.append(t)
                     handled = True
@@ -271,8 +276,10 @@ def git_reference(P, toks):
     t = toks[i]
     if s_eq(P, t, '--version') or s_eq(P, t, '-v'):
         cmd = list(b'version')
+        P.state['meta_stop'] = i
     elif s_eq(P, t, '--help') or s_eq(P, t, '-h'):
         cmd = list(b'help')
+        P.state['meta_stop'] = i
     else:
         cmd = t
     return consumed, ('cmd', cmd, toks[i + 1:])
@@ -320,7 +327,9 @@ def run_argv(h, specs):
     if lit is True:
         h.require(True, 'A1-same-invocation')
     else:
+        P.state.pop('meta_stop', None)
         ra = git_reference(P, toks)
+        P.state['meta_stop_user'] = P.state.pop('meta_stop', None)
         rb = git_reference(P, out)
         same = outcomes_equal(ra, rb)
         h.require(any_of([lit, same]) if lit is not False else same, 'A1-same-invocation',
@@ -328,7 +337,9 @@ def run_argv(h, specs):
                   known_a1(h, toks))
     # the command is never a global option's value:  when git finds a command, git-ai's command is it
     cmdv = field(M, parsed, PGI, 'command')
+    P.state.pop('meta_stop', None)
     ra = git_reference(P, toks)
+    P.state['meta_stop_user'] = P.state.pop('meta_stop', None)
     if ra[1][0] == 'cmd' and cmdv.var == 'Some':
         h.require(bytes_equal(cmdv.f[0].buf.b, ra[1][1]), 'A1-command', 'command chosen for hooks differs from the command git runs',
                   known_a1(h, toks))
@@ -337,7 +348,12 @@ def run_argv(h, specs):
 
 
 def known_a1(h, toks):
-    return []
+    """recorded deviation: git stops option scanning at the first help/version/query option;
+    git-ai keeps scanning and re-orders.  Class = git's scan of the USER's argv stops at such
+    a token and at least one more token follows it."""
+    ms = h.P.state.get('meta_stop_user')
+    cls = ms is not None and ms + 1 < len(toks)
+    return [('meta-option-followed-by-more', z3.BoolVal(bool(cls)))]
 
 
 def ob_argv_batch(h, shape):
@@ -406,6 +422,8 @@ def ob_alias_tokens(h, shape):
         bs = [0xC2, 0xA0] + sym
     elif tpl == 'lead_space':
         bs = [32] + sym
+    elif tpl == 'cmd_prefix':
+        bs = list(b'zq') + sym
     else:
         bs = sym
     h.inputs_struct = {'value': ByteStr(bs)}
@@ -415,16 +433,17 @@ def ob_alias_tokens(h, shape):
         h.panic('A2-no-panic', e.msg)
         return
     # git: a value starting with '!' is a shell alias (git-ai: None = leave the invocation alone)
-    known = known_a2(h, bs)
     if bs and P.branch(byte_eq(bs[0], 33)):
-        h.require(r.var == 'None', 'A2-shell-alias', 'shell alias was tokenised', known)
+        h.require(r.var == 'None', 'A2-shell-alias', 'shell alias was tokenised', known_a2(h, bs))
         h.sample = h.witness()
         return
     ref = split_cmdline_reference(P, bs)
+    known = known_a2(h, bs, ref)
     if ref is None:
         h.require(r.var == 'None', 'A2-git-rejects', 'git rejects this alias value but git-ai expands it', known)
     elif r.var == 'None':
-        h.require(False, 'A2-git-accepts', 'git expands this alias value but git-ai gives up', known)
+        # giving up is always safe for the arguments: handle_git then passes the user's own invocation
+        h.require(True, 'A2-git-accepts')
     else:
         got = [list(s.buf.b) for s in r.f[0].e]
         if len(got) != len(ref):
@@ -434,19 +453,17 @@ def ob_alias_tokens(h, shape):
     h.sample = h.witness()
 
 
-def known_a2(h, bs):
+def known_a2(h, bs, ref='unset'):
     """recorded deviations of parse_alias_tokens from split_cmdline, as predicates over the value"""
     P = h.P
     out = []
     n = len(bs)
-    # (1) empty arguments ('' or "" or leading/double separators) are dropped
-    # (2) trailing backslash is kept, git rejects
-    # (3) Unicode / VT / FF whitespace splits, git's isspace does not
-    # These are recorded only if known_findings.jsonl lists them; predicates are coarse on purpose:
-    has_quote_pair = any_of([all_of([byte_eq(bs[i], q), byte_eq(bs[i + 1], q)]) for i in range(n - 1) for q in (39, 34)])
-    lead_space = any_of([byte_eq(bs[0], v) for v in (32, 9)]) if n else False
-    out.append(('alias-empty-argument-dropped', zbool(any_of([has_quote_pair, lead_space]))))
+    # (1) git keeps empty arguments ('' / "" / separators at either end); git-ai drops them
+    empty_tok = ref not in ('unset', None) and any(len(t) == 0 for t in ref)
+    out.append(('alias-empty-argument-dropped', z3.BoolVal(bool(empty_tok))))
+    # (2) git rejects a value that ends inside an escape; git-ai keeps the backslash
     out.append(('alias-trailing-backslash', zbool(byte_eq(bs[-1], 92)) if n else z3.BoolVal(False)))
+    # (3) git's isspace is SP TAB LF CR; git-ai splits on every Unicode White_Space (VT, FF, U+00A0 ...)
     nonascii_ws = any(isinstance(b, int) and b >= 0x80 for b in bs)
     out.append(('alias-non-git-whitespace', zbool(any_of([byte_eq(b, 11) for b in bs] + [nonascii_ws]))))
     return out
@@ -579,7 +596,17 @@ def replay(v, native):
         if passed == argv and ob == 'A1-same-invocation':
             return {'reproduced': False, 'native': r}
         if ob == 'A1-command':
-            return {'reproduced': False, 'native': r, 'note': 'A1-command is confirmed through A1-same-invocation only'}
+            # which command does the real git run for the user's argv?  (GIT_TRACE names it)
+            rc, out, errt = _run_git(argv, {'GIT_TRACE': '1'})
+            ran = None
+            for l in errt.splitlines():
+                if 'trace: built-in: git ' in l:
+                    ran = l.split('trace: built-in: git ', 1)[1].split()[0] if l.split('trace: built-in: git ', 1)[1].strip() else ''
+                    break
+                if 'trace: exec: git-' in l:
+                    ran = l.split('trace: exec: git-', 1)[1].split()[0]
+                    break
+            return {'reproduced': ran is not None and r.get('command') != ran, 'git_ran': ran, 'native': r}
         a = _run_git(argv)
         b = _run_git(passed)
         return {'reproduced': a != b, 'user': a, 'passed': b, 'argv': argv, 'passed_argv': passed}
@@ -682,3 +709,11 @@ def _confirm_alias_resolve(inp, native):
         return {'reproduced': a != b, 'user': a, 'through_git_ai': b, 'passed': passed}
     finally:
         subprocess.call(['rm', '-rf', tmp])
+
+
+def replay_priority(v):
+    """prefer counterexamples real git can show us (first alias token observable as an external command)"""
+    if v['obligation'].startswith('A2'):
+        val = bytes_of_json(v['inputs']['value'])
+        return 0 if val.startswith(b'zq') else (1 if val[:1] not in (b' ', b'\t', b'!', b'') else 2)
+    return 0
